@@ -156,6 +156,8 @@ def select_start_nodes(td, env, num_starts):
         raise NotImplementedError("Multistart not yet supported for FJSP/JSSP")
     else:
         # Environments with depot: we do not select the depot as a start node
+        if env.name == "mtsp":
+            num_loc = num_loc - 1  # for mTSP the depot is one of the `num_loc` nodes
         selected = (
             torch.arange(num_starts, device=td.device).repeat_interleave(td.shape[0])
             % num_loc
